@@ -167,6 +167,17 @@ func gen(r *vh.Rand, tier string, n int, emit func(vh.Case)) {
 				c.Ops = append(c.Ops, "dump")
 			}
 		}
+		if rr.Chance(1, 40) {
+			// more keys than the enumeration channel buffers (dsq.KeysOnlyBufSize = 128), so that a
+			// cancelled consumer really cuts the enumeration short
+			var bs []string
+			for x := 0; x < 140; x++ {
+				d := []byte{byte(x), byte(x >> 8), 0x77}
+				h, _ := mh.Sum(d, mh.SHA2_256, -1)
+				bs = append(bs, cidStr(1, cid.Raw, h)+" "+vh.Hex(d))
+			}
+			c.Ops = append(c.Ops, "putmany "+strings.Join(bs, " "), fmt.Sprintf("keyscancel %d", rr.Range(0, 3)), "keyserr")
+		}
 		c.Ops = append(c.Ops, "keys", "dump")
 		emit(c)
 	}
